@@ -73,7 +73,7 @@ def stage(ctx):
     root, target, log = ctx["root"], ctx["target"], ctx["log"]
     exe = ctx["build"]("mon", features)
     rounds = spec.get("rounds", {"quick": 1, "thorough": 10})[tier]
-    per_round = int(spec.get("grammars", {"quick": 320, "thorough": 320})[tier] * ctx["scale"]) or 16
+    per_round = int(spec.get("grammars", {"quick": 640, "thorough": 640})[tier] * ctx["scale"]) or 16
     ws = os.path.join(target, "gen", config, "ws")
     tdir = os.path.join(target, "gen-target", config)
     reports, dead = [], []
